@@ -37,6 +37,8 @@ pub struct Feat {
     pub withdrawals: bool,
     pub donation: bool,
     pub witnesses: bool,
+    /// `cardano::publish` blocks (outputs carrying a reference script)
+    pub publish: bool,
     /// `policy P = 0x..` used where a byte string is expected (datum field / AnyAsset policy)
     pub assign_policy_as_bytes: bool,
     /// argument pool: false = comfortable (amounts stay in range), true = boundary-heavy
@@ -84,6 +86,7 @@ impl Feat {
             withdrawals: false,
             donation: false,
             witnesses: false,
+            publish: true,
             assign_policy_as_bytes: true,
             boundary_args: false,
             mixed_case: true,
@@ -1512,6 +1515,30 @@ impl<'t, 'c> Gen<'t, 'c> {
             self.mark("donation");
             let coin = self.gen_int(false, 2, nl);
             self.cur.cardano.push(GDirective::TreasuryDonation { coin });
+        }
+        if self.feat.publish && self.t.chance(1, 5) {
+            self.mark("publish");
+            let n = 1 + self.t.pick(2);
+            for _ in 0..n {
+                let to = self.gen_address(nl);
+                let amount = self.gen_value(1, true, nl);
+                let datum = if self.t.chance(1, 3) { Some(self.gen_plain_data()) } else { None };
+                let version = self.t.pick(4) as i64;
+                let script = if version == 0 {
+                    // a valid native script: [0, keyhash] (sig)
+                    let mut s = vec![0x82, 0x00, 0x58, 0x1c];
+                    s.extend(fixed_bytes(self.t.pick(100) as u8, 28));
+                    s
+                } else {
+                    fixed_bytes(self.t.pick(100) as u8, 4 + self.t.pick(20))
+                };
+                let mut order: Vec<u8> = (0..5).collect();
+                for k in (1..order.len()).rev() {
+                    let j = self.t.pick(k + 1);
+                    order.swap(k, j);
+                }
+                self.cur.cardano.push(GDirective::Publish { to, amount, datum, version, script, field_order: order });
+            }
         }
         if self.feat.witnesses {
             if self.t.chance(1, 4) {
